@@ -44,12 +44,13 @@ type Driver struct {
 	Persist []bool // per swamp: persistent (may be closed)
 	Skipped map[string]int
 	// non-triviality facts
-	AutoDestroyed map[string]bool
-	Recreated     bool
-	CondFalse     bool
-	SliceEmptied  bool
-	Closes        int
-	OpsRun        int
+	AutoDestroyed  map[string]bool
+	Recreated      bool
+	CondFalse      bool
+	SliceEmptied   bool
+	ShiftedExpired bool
+	Closes         int
+	OpsRun         int
 	// NoAssert: the model is not an oracle; CheckContents re-synchronises it
 	// from the observed contents (C05 / C30 use it only to steer the guards).
 	NoAssert bool
@@ -341,6 +342,29 @@ func (d *Driver) step(op *Op) (Verdict, *Incident) {
 			resp = nil
 		}
 		return m.ShiftByKeys(req, resp, err), nil
+	case "shiftexp":
+		sn := e.SN(op.S)
+		if d.G.DeleteRecreateDelete {
+			for k := range m.sw(sn).Keys {
+				if d.removalBlocked(sn, k) {
+					d.skip("removal-of-deleted-and-recreated-key")
+					return ok, nil
+				}
+			}
+		}
+		t0 := time.Now().UnixNano()
+		resp, err, isNil, inc := Call(e, "ShiftExpiredTreasures", &hydrapb.ShiftExpiredTreasuresRequest{IslandID: rig.Island(sn), SwampName: sn, HowMany: int32(op.N)}, g.ShiftExpiredTreasures)
+		t1 := time.Now().UnixNano()
+		if inc != nil {
+			return ok, inc
+		}
+		if isNil {
+			resp = nil
+		}
+		if len(resp.GetTreasures()) > 0 {
+			d.ShiftedExpired = true
+		}
+		return m.ShiftExpired(sn, op.N, resp, err, t0, t1), nil
 	case "patch":
 		req := e.PatchReq(op)
 		_, _, _, inc := Call(e, "PatchTreasures", req, g.PatchTreasures)
